@@ -7,7 +7,7 @@ one (and, for race-instrumented runs, the race detector stayed silent). -/
 namespace RawPanelVerif.Driver.Conc
 
 def step (cmd : String) (_args : List String) (impl : String) : String :=
-  if cmd ≠ "conc.run" then "ERR bad-record"
+  if cmd ≠ "conc.run" ∧ cmd ≠ "conc.debug" then "ERR bad-record"
   else if impl = "ok" then "EQ H1"
   else s!"NE H0:concurrent-{(impl.splitOn ":").headD impl} ok"
 
